@@ -9,3 +9,19 @@ class Plain(object):
         return type(other) is type(self) and other.__dict__ == self.__dict__
 
     __hash__ = None
+
+
+class Slotted(object):
+    __slots__ = ("a",)
+
+    def __init__(self):
+        self.a = 1
+
+
+class ReadOnly(object):
+    def __init__(self):
+        self.a = 1
+
+    @property
+    def ro(self):
+        return 5
